@@ -57,6 +57,7 @@ func TestC04(t *testing.T) {
 		if i < len(cfgs) && !r.Quick() {
 			cfg = cfgs[i] // thorough: every configuration at least once
 		}
+		cfg.Metrics = i%5 == 4 // every fifth history runs a store with metrics switched on
 		chain := 6 + rng.Intn(maxChain-5)
 		p := c04P{Cfg: cfg, Chain: chain}
 		nops := 3 + rng.Intn(maxOps-2)
